@@ -69,6 +69,11 @@ pub fn install_panic_hook() {
         } else {
             "<non-string panic>".to_string()
         };
+        if msg.starts_with("unsafe precondition(s) violated") || msg.contains("cannot unwind") || msg.contains("during cleanup") {
+            // the process is about to abort (e.g. a std `unsafe precondition(s) violated` check):
+            // leave a report for the parent, which cannot be given through catch_unwind
+            eprintln!("NON-UNWINDING-PANIC: {} @ {}", msg, loc);
+        }
         LAST_PANIC.with(|p| *p.borrow_mut() = Some(format!("{} @ {}", msg, loc)));
     }));
 }
